@@ -215,6 +215,19 @@ def suite_area(ctx):
             ctx.fail("spherical.SphPolygon.area", f"radius {rad}: area {A_rad!r} is not radius^2 x {A!r}", {**inp, "radius": rad}, None, tags={"cause": "radius"}, size=n)
         if abs(A + A_inv - 4 * math.pi) > 1e-9:
             ctx.fail("spherical.SphPolygon.inverse", f"area(P) + area(inverse P) = {A + A_inv!r}, not 4 pi", inp, None, tags={"cause": "inverse"}, size=n)
+        # 2b. the same polygon handed over as a float32 vertex array (e.g. the contour of a float32 swath): the polygon IS the rounded one
+        ll32 = ll.astype(np.float32)
+        V32 = ll2v(ll32[:, 0].astype(np.float64), ll32[:, 1].astype(np.float64))
+        if size >= 0.02:
+            from pyresample.spherical import SphPolygon
+            with warnings.catch_warnings(), np.errstate(all="ignore"):
+                warnings.simplefilter("ignore")
+                A32 = float(SphPolygon(ll32.copy()).area())
+            ref32 = area_ref(V32)
+            if abs(A32 - ref32) > 1e-9 * (1 + ref32):
+                ctx.fail("spherical.SphPolygon.area", f"float32 vertex array: area() = {A32!r} but the polygon with exactly these (rounded) vertices encloses {ref32!r}",
+                         {**inp, "dtype": "float32"}, None, tags={"cause": "float32-vertices"}, size=n)
+            ctx.count("area.float32")
         # 3. split along a diagonal (convex polygons: every diagonal is inside)
         if kind == "convex" and n >= 4:
             k = rng.randint(2, n - 2)
@@ -252,6 +265,31 @@ def _pair(rng, relation):
     return place, A, B
 
 
+def _shallow_pair(rng):
+    """two convex polygons one of whose edge pairs crosses at a very small angle (0.05 - 0.2 degrees), both edges heading the same way;
+    every vertex stays more than 5e-5 rad away from the other polygon's boundary"""
+    place, centre = rng.choice(PLACES)
+    A = make_polygon(rng, "convex", rng.randint(4, 7), 0.3, centre)
+    i = rng.randrange(len(A))
+    P, Q = A[i], A[(i + 1) % len(A)]
+    f = rng.uniform(0.35, 0.65)
+    M = P * (1 - f) + Q * f
+    M /= np.linalg.norm(M)
+    nrm = np.cross(P, Q)
+    t = np.cross(nrm, M)
+    t /= np.linalg.norm(t)
+    eps = math.radians(rng.choice([0.05, 0.1, 0.2])) * rng.choice([-1, 1])
+    t2 = t * math.cos(eps) + np.cross(M, t) * math.sin(eps)
+    right = np.cross(t2, M)
+    half, depth = rng.uniform(0.2, 0.3), rng.uniform(0.2, 0.35)
+    B0 = M * math.cos(half) - t2 * math.sin(half)
+    B1 = M * math.cos(half) + t2 * math.sin(half)
+    B2 = B1 * math.cos(depth) + right * math.sin(depth)
+    B3 = B0 * math.cos(depth) + right * math.sin(depth)
+    B = np.array([v / np.linalg.norm(v) for v in (B0, B1, B2, B3)])
+    return place, A, B
+
+
 def suite_setops(ctx):
     rng = ctx.rng
     n_cases = 60 if ctx.quick else 500
@@ -259,13 +297,15 @@ def suite_setops(ctx):
     attempts = 0
     while done < n_cases and attempts < n_cases * 20:
         attempts += 1
-        relation = rng.choice(["overlap", "overlap", "overlap", "disjoint", "nested"])
-        place, VA, VB = _pair(rng, relation)
+        relation = rng.choice(["overlap", "overlap", "overlap", "disjoint", "nested", "shallow"])
+        place, VA, VB = _shallow_pair(rng) if relation == "shallow" else _pair(rng, relation)
         if not (is_convex_cw(VA) and is_convex_cw(VB)):
             continue
         # general position
-        if min(min_boundary_distance(VA, VB), min_boundary_distance(VB, VA)) < 1e-3:
+        if min(min_boundary_distance(VA, VB), min_boundary_distance(VB, VA)) < (5e-5 if relation == "shallow" else 1e-3):
             continue
+        if relation == "shallow":
+            ctx.count("setops.shallow_crossing")
         a_in_b = [inside_convex(a, VB) for a in VA]
         b_in_a = [inside_convex(b, VA) for b in VB]
         ref_inter = clip_area(VA, VB)
